@@ -450,6 +450,13 @@ Theorem C07_walker_contract : forall mkR body w, j5s_walk_gen mkR body = Ok w ->
 Proof. exact j5s_walk_gen_contract. Qed.
 Print Assumptions C07_walker_contract.
 
+(* the protovalidate rules of the walker model were written from exactly the (buf.validate.*) annotations the two .proto
+   files carry today, and each annotated field has a model rule or is one of the two stated exemptions *)
+Theorem C07_validate_rules_agree :
+  vrule_sources = WalkSchemaGen.validate_annotations /\ forallb vrule_covered WalkSchemaGen.validate_annotations = true.
+Proof. exact (conj validate_sources_agree validate_rules_cover). Qed.
+Print Assumptions C07_validate_rules_agree.
+
 (* totality of the front end, for EVERY byte string and both parser modes, no hypothesis *)
 Theorem C07_front_end_total_j5s : forall mkR ff input,
   (exists out, front_end (j5s_walk_gen mkR) ff input = Ok out) \/ front_end (j5s_walk_gen mkR) ff input = Err E_UNMODELLED.
